@@ -62,7 +62,7 @@ Definition client_msgs (l : list entry) : list Z :=
 Definition handler_acked (l : list entry) : list Z :=
   flat_map (fun e => match e with (H, HSend x, RNil) => [x] | _ => [] end) l.
 Definition handler_msgs (l : list entry) : list Z :=
-  flat_map (fun e => match e with (H, HRecv, RMsg x) => [x] | _ => [] end) l.
+  flat_map (fun e => match e with ((H | HR), HRecv, RMsg x) => [x] | _ => [] end) l.
 Definition client_acked (l : list entry) : list Z :=
   flat_map (fun e => match e with (CS, CSend x, RNil) => [x] | _ => [] end) l.
 
@@ -215,17 +215,14 @@ Qed.
 Lemma start_DC s x s' h : DC s h -> apply_start s x = Some s' -> DC s' h.
 Proof.
   intros [D1 [Dw [Dp [dr [D2 D3]]]]] Hs. unfold DC, held, last_err, wf_last in *.
-  destruct x as [a o| |]; cbn in Hs.
-  - destruct (get_pend s a) eqn:Eg; [discriminate|].
-    assert (E : s' = set_pend s a (Some (PStart o))).
-    { destruct o; try (injection Hs as <-; reflexivity). destruct (svrDone s); [discriminate|]. injection Hs as <-; reflexivity. }
-    subst s'. destruct a; cbn in *.
-    1,2,4: (split; [exact D1|]; split; [exact Dw|]; split; [exact Dp|]; exists dr; split; [exact D2|exact D3]).
+  destruct x as [a o| |].
+  - destruct (apply_start_call _ _ _ _ Hs) as [Eg [-> _]]. destruct a; cbn in *.
+    1,2,4,5: (split; [exact D1|]; split; [exact Dw|]; split; [exact Dp|]; exists dr; split; [exact D2|exact D3]).
     rewrite Eg in D2. split; [exact D1|]. split; [exact Dw|]. split; [intros; discriminate|]. exists dr. split; [exact D2|exact D3].
-  - injection Hs as <-. destruct (cctx s =? 0) eqn:Ec; cbn.
+  - cbn in Hs. injection Hs as <-. destruct (cctx s =? 0) eqn:Ec; cbn.
     + split; [exact D1|]. split; [exact Dw|]. split; [exact Dp|]. exists dr. split; [exact D2|]. intros _. left. discriminate.
     + split; [exact D1|]. split; [exact Dw|]. split; [exact Dp|]. exists dr. split; [exact D2|exact D3].
-  - injection Hs as <-. destruct (cctx s =? 0) eqn:Ec; cbn.
+  - cbn in Hs. injection Hs as <-. destruct (cctx s =? 0) eqn:Ec; cbn.
     + split; [exact D1|]. split; [exact Dw|]. split; [exact Dp|]. exists dr. split; [exact D2|]. intros _. left. discriminate.
     + split; [exact D1|]. split; [exact Dw|]. split; [exact Dp|]. exists dr. split; [exact D2|exact D3].
 Qed.
@@ -355,25 +352,20 @@ Qed.
 
 Lemma start_sctx s x s' : apply_start s x = Some s' -> sctx s <> 0 -> sctx s' <> 0.
 Proof.
-  destruct x as [a o| |]; cbn; intros Hs Hc.
-  - destruct (get_pend s a); [discriminate|].
-    assert (E : s' = set_pend s a (Some (PStart o))).
-    { destruct o; try (injection Hs as <-; reflexivity). destruct (svrDone s); [discriminate|]. injection Hs as <-; reflexivity. }
-    subst s'. destruct a; exact Hc.
-  - injection Hs as <-. destruct (cctx s =? 0) eqn:E; [unfold sctx; cbn; discriminate|exact Hc].
-  - injection Hs as <-. destruct (cctx s =? 0) eqn:E; [unfold sctx; cbn; discriminate|exact Hc].
+  destruct x as [a o| |]; intros Hs Hc.
+  - destruct (apply_start_call _ _ _ _ Hs) as [_ [-> _]]. destruct a; exact Hc.
+  - cbn in Hs. injection Hs as <-. destruct (cctx s =? 0) eqn:E; [unfold sctx; cbn; discriminate|exact Hc].
+  - cbn in Hs. injection Hs as <-. destruct (cctx s =? 0) eqn:E; [unfold sctx; cbn; discriminate|exact Hc].
 Qed.
 
 Lemma start_pH s x s' : apply_start s x = Some s' ->
   pH s' = pH s \/ (pH s = None /\ exists o, pH s' = Some (PStart o)).
 Proof.
-  destruct x as [a o| |]; cbn; intros Hs.
-  - destruct (get_pend s a) eqn:Eg; [discriminate|].
-    assert (E : s' = set_pend s a (Some (PStart o))).
-    { destruct o; try (injection Hs as <-; reflexivity). destruct (svrDone s); [discriminate|]. injection Hs as <-; reflexivity. }
-    subst s'. destruct a; cbn; try (left; reflexivity). right. split; [exact Eg|eexists; reflexivity].
-  - injection Hs as <-. left. destruct (cctx s =? 0); reflexivity.
-  - injection Hs as <-. left. destruct (cctx s =? 0); reflexivity.
+  destruct x as [a o| |]; intros Hs.
+  - destruct (apply_start_call _ _ _ _ Hs) as [Eg [-> _]].
+    destruct a; cbn; try (left; reflexivity). right. split; [exact Eg|eexists; reflexivity].
+  - cbn in Hs. injection Hs as <-. left. destruct (cctx s =? 0); reflexivity.
+  - cbn in Hs. injection Hs as <-. left. destruct (cctx s =? 0); reflexivity.
 Qed.
 
 Lemma start_DH s x s' h : DH s h -> apply_start s x = Some s' -> DH s' h.
@@ -459,12 +451,10 @@ Proof.
   induction 1 as [|s x s' h _ IH Hs|s a s' r h h' _ IH _ _ Hq _].
   - reflexivity.
   - assert (E : reqQ s' = reqQ s).
-    { destruct x as [a o| |]; cbn in Hs.
-      - destruct (get_pend s a); [discriminate|].
-        destruct o; try (injection Hs as <-; destruct a; reflexivity).
-        destruct (svrDone s); [discriminate|]. injection Hs as <-; destruct a; reflexivity.
-      - injection Hs as <-. destruct (cctx s =? 0); reflexivity.
-      - injection Hs as <-. destruct (cctx s =? 0); reflexivity. }
+    { destruct x as [a o| |].
+      - destruct (apply_start_call _ _ _ _ Hs) as [_ [-> _]]. destruct a; reflexivity.
+      - cbn in Hs. injection Hs as <-. destruct (cctx s =? 0); reflexivity.
+      - cbn in Hs. injection Hs as <-. destruct (cctx s =? 0); reflexivity. }
     rewrite E. exact IH.
   - destruct Hq as [-> -> ->|f -> -> ->|f Hq -> ->].
     + exact IH.
@@ -472,7 +462,7 @@ Proof.
     + rewrite IH, Hq, <- app_assoc. reflexivity.
 Qed.
 
-Lemma handler_msgs_snoc l e : handler_msgs (l ++ [e]) = handler_msgs l ++ match e with (H, HRecv, RMsg x) => [x] | _ => [] end.
+Lemma handler_msgs_snoc l e : handler_msgs (l ++ [e]) = handler_msgs l ++ match e with ((H | HR), HRecv, RMsg x) => [x] | _ => [] end.
 Proof. unfold handler_msgs. rewrite flat_map_snoc. reflexivity. Qed.
 Lemma client_acked_snoc l e : client_acked (l ++ [e]) = client_acked l ++ match e with (CS, CSend x, RNil) => [x] | _ => [] end.
 Proof. unfold client_acked. rewrite flat_map_snoc. reflexivity. Qed.
@@ -526,6 +516,13 @@ Proof.
     assert (dr = []) by (destruct (nil_or_not dr) as [?|N]; [assumption|exfalso; apply (A2 N); apply Z.eqb_eq; exact Ec]). subst dr.
     exists []. split; [eqr A1|intro X; exfalso; apply X; reflexivity].
   - (* HRecv dequeues but reports the ended context: the message is dropped *)
+    split; [|exists un; split; [eqr B1|exact B2]].
+    match goal with E : rq _ = _ ++ [?z] |- _ => exists (dr ++ [z]) end. split; [eqr A1|intros _; apply Z.eqb_neq; exact Ec].
+  - (* the second handler goroutine: HRecv dequeues with a live context: delivered *)
+    split; [|exists un; split; [eqr B1|exact B2]].
+    assert (dr = []) by (destruct (nil_or_not dr) as [?|N]; [assumption|exfalso; apply (A2 N); apply Z.eqb_eq; exact Ec]). subst dr.
+    exists []. split; [eqr A1|intro X; exfalso; apply X; reflexivity].
+  - (* the second handler goroutine: HRecv dequeues but reports the ended context: the message is dropped *)
     split; [|exists un; split; [eqr B1|exact B2]].
     match goal with E : rq _ = _ ++ [?z] |- _ => exists (dr ++ [z]) end. split; [eqr A1|intros _; apply Z.eqb_neq; exact Ec].
 Qed.
